@@ -61,7 +61,7 @@ CLAIMED['C02'] = dict(
          'real factory bodies, the real locator stepping constructors (mem-initialiser expressions), offset, operator+= and xy_at; '
          'plus the algebra flip^2 = id, rot90cw^4 = id, rot180 = flipLR o flipUD, rot90ccw o rot90cw = id; '
          'nth_channel_view / kth_channel_view of basic views (both make bodies and the `adjacent` dispatch predicate, 10 source view types incl. planar and step): '
-         'pixel (x,y) of the result has the address of channel n of source pixel (x,y).',
+         'pixel (x,y) of the result has the address of channel n of source pixel (x,y); make_step_iterator over compound iterators (dereference adaptors over step iterators) installs the requested step and keeps every adaptor\'s function object.',
     note=TRUST + 'channel views of non-basic views, color_converted_view (C09), virtual locators and dynamic-image factories are not covered. '
          'View/locator constructors and make_step_iterator are assumed to store their arguments.',
     technique='function contracts with ghost coordinates, discharged as integer-theory VCs (goto program -> z3 5.1) on extracted real bodies',
